@@ -16,7 +16,8 @@ import numpy as np
 
 from mc import common, meshmc
 from mc.meshmc import CFGS, Horizon, all_states, build, build_ref, horizon, leaf6, leafset
-from mc.refmesh import halves
+from mc.refmesh import halves, ref_from_leaves
+from mc.meshcheck import check_neighbours, check_tiling
 
 import src.mesh as M
 
@@ -200,6 +201,12 @@ def work(item):
             m, before, top, prints = info
             err = oracle(ref, kind, eta, theta, m, before, top, prints)
             outcomes.add(common.digest(sorted(leafset(m))))
+            if err is None and (sum(1 for v in eta if v) <= 1 or all(eta)):
+                # full C02/C10 invariants (tiling, bookkeeping, neighbours) on the mesh a marking step leaves behind
+                post = ref_from_leaves(ref, leafset(m))
+                bad = check_tiling(m, post) + check_neighbours(m, post)
+                if bad:
+                    err = ('mesh-invariant-after-marking:' + bad[0][0], bad[0][1])
             classes.add((kind, len([1 for r, ax in top if ax == 0]), len([1 for r, ax in top if ax == 1])))
         if err is not None and len(viols) < 3:
             viols.append((err[0], {'cfg': cfgname, 'history': h, 'kind': kind, 'eta': list(map(int, eta)), 'theta': theta,
@@ -235,7 +242,6 @@ def work(item):
                     continue  # reported by mode B
                 mid_leaves = [leaf6(e) for e in m.leaf_elements]
                 N1 = len(mid_leaves)
-                from mc.refmesh import ref_from_leaves
                 ref1 = ref_from_leaves(ref, mid_leaves)
                 seconds = [[1 if j == i else 0 for j in range(N1)] for i in range(N1)]
                 seconds += [[1] * N1, [j % 2 for j in range(N1)]]
